@@ -338,7 +338,7 @@ func c02StreamAlloc(p *Prog, r *Report) {
 
 // c02StreamAtWrite: who writes Header.StreamId of frames obtained from a Request.
 func c02StreamAtWrite(p *Prog, r *Report, rule string) {
-	r.Rule(rule, "the backend stream id is stored into a Request's frame only by the sender object, in the function that encodes it for the connection's writer, from the sender's own allocated stream; no other code writes stream ids into Request frames")
+	r.Rule(rule, "no code writes into the frame object a Request hands out (it is shared by all attempts of the request, possibly on several connections at once); the sender encodes a private copy with its own header, carrying the stream id allocated for this send")
 	streamIdF := p.Field("frame", "Header", "StreamId")
 	senderStream := p.fieldByType("proxycore", "requestSender", func(t types.Type) bool { b, ok := t.Underlying().(*types.Basic); return ok && b.Kind() == types.Int16 }) // may be refactored away: then every store is judged by where it happens
 	fromRequestFrame := func(v ssa.Value) bool {
@@ -358,66 +358,154 @@ func c02StreamAtWrite(p *Prog, r *Report, rule string) {
 		}
 		return false
 	}
+	// privateCopy: v is a frame object built here (or by a helper) with a header of its own:
+	// a literal whose Header is the result of Header.DeepCopy()/Clone() of the request's frame.
+	var privateCopy func(v ssa.Value, depth int) bool
+	privateCopy = func(v ssa.Value, depth int) bool {
+		os := origins(v)
+		if len(os) == 0 {
+			return false
+		}
+		for _, o := range os {
+			switch x := o.(type) {
+			case *ssa.Alloc:
+				okHdr := false
+				for _, ref := range *x.Referrers() {
+					fa, ok := ref.(*ssa.FieldAddr)
+					if !ok || fieldOfAddr(fa).Name() != "Header" {
+						continue
+					}
+					for _, rr := range *fa.Referrers() {
+						if st, ok := rr.(*ssa.Store); ok && st.Addr == ssa.Value(fa) {
+							for _, ho := range origins(st.Val) {
+								switch h := ho.(type) {
+								case *ssa.Call:
+									if c := h.Call.StaticCallee(); c != nil && (c.Name() == "DeepCopy" || c.Name() == "Clone") {
+										okHdr = true
+									}
+								case *ssa.Alloc:
+									okHdr = true // a header literal
+								}
+							}
+						}
+					}
+				}
+				if !okHdr {
+					return false
+				}
+			case *ssa.Call:
+				callee := x.Call.StaticCallee()
+				if callee == nil || !p.InRepo(callee) || depth == 0 {
+					return false
+				}
+				okRet := true
+				nret := 0
+				eachInstr(callee, func(in ssa.Instruction) {
+					if ret, ok := in.(*ssa.Return); ok && len(ret.Results) > 0 {
+						nret++
+						if !privateCopy(ret.Results[0], depth-1) {
+							okRet = false
+						}
+					}
+				})
+				if !okRet || nret == 0 {
+					return false
+				}
+			default:
+				return false
+			}
+		}
+		return true
+	}
 	var bad []string
 	nStores, nEnc := 0, 0
 	for _, fn := range p.ScopedFuncs("proxycore") {
-		// encode sites of request frames
-		type enc struct {
-			call ssa.CallInstruction
-			frm  ssa.Value
-		}
-		var encs []enc
-		eachCall(fn, func(c ssa.CallInstruction) {
-			cm := c.Common()
-			if cm.IsInvoke() && (cm.Method.Name() == "EncodeFrame" || cm.Method.Name() == "EncodeRawFrame") && fromRequestFrame(cm.Args[0]) {
-				encs = append(encs, enc{c, cm.Args[0]})
-			}
-		})
-		var stores []*ssa.Store
+		// (1) nobody writes into the request's own frame: it is shared by every attempt of the
+		// request, and the writer goroutine of another connection may be encoding it right now
 		eachInstr(fn, func(in ssa.Instruction) {
 			st, ok := in.(*ssa.Store)
 			if !ok {
 				return
 			}
 			fa, ok := st.Addr.(*ssa.FieldAddr)
-			if !ok || fieldOfAddr(fa) != streamIdF || !fromRequestFrame(fa.X) {
+			if !ok || namedOf(fa.X.Type()) == nil || namedOf(fa.X.Type()).Obj().Name() != "Header" || !fromRequestFrame(fa.X) {
 				return
 			}
-			stores = append(stores, st)
-		})
-		for _, st := range stores {
 			nStores++
-			if len(encs) == 0 {
-				bad = append(bad, fmt.Sprintf("%s: %s writes a stream id into a Request's frame but does not encode it there: the frame object is shared by every attempt of the request, another connection's writer may encode it with this id", p.Pos(st.Pos()), fn.Name()))
-			}
-			if f, base := loadedField(st.Val); f == nil || (senderStream != nil && f != senderStream) || (senderStream == nil && (len(fn.Params) == 0 || base != ssa.Value(fn.Params[0]))) {
-				bad = append(bad, fmt.Sprintf("%s: stream id written is not the sender object's own allocated stream", p.Pos(st.Pos())))
-			}
-		}
-		for _, e := range encs {
-			nEnc++
-			okStore := false
-			for _, st := range stores {
-				// same frame object and the store dominates the encode
-				sameFrm := false
-				fa := st.Addr.(*ssa.FieldAddr)
-				if _, base := loadedField(fa.X); base == e.frm {
-					sameFrm = true
+			bad = append(bad, fmt.Sprintf("%s: %s writes %s into the header of the request's own frame: the frame is shared by every attempt of the request (a retry on another connection encodes the same object concurrently), so a frame can leave with a stream id its connection never allocated for it", p.Pos(st.Pos()), fn.Name(), fieldOfAddr(fa).Name()))
+		})
+		// (2) what the writer encodes for a request is a private copy carrying this send's stream id
+		isSenderFn := false
+		if senderStream != nil {
+			eachInstr(fn, func(in ssa.Instruction) {
+				if ld, ok := in.(*ssa.UnOp); ok {
+					if f, _ := loadedField(ld); f == senderStream {
+						isSenderFn = true
+					}
 				}
-				if sameFrm && (st.Block() == e.call.Block() || st.Block().Dominates(e.call.Block())) {
+			})
+		}
+		callsFrame := false
+		eachCall(fn, func(c ssa.CallInstruction) {
+			if cm := c.Common(); cm.IsInvoke() && cm.Method.Name() == "Frame" && recvNamedIs(cm.Method, "proxycore", "Request") {
+				callsFrame = true
+			}
+		})
+		if !callsFrame {
+			continue
+		}
+		eachCall(fn, func(c ssa.CallInstruction) {
+			cm := c.Common()
+			if !cm.IsInvoke() || (cm.Method.Name() != "EncodeFrame" && cm.Method.Name() != "EncodeRawFrame") {
+				return
+			}
+			nEnc++
+			if fromRequestFrame(cm.Args[0]) {
+				bad = append(bad, fmt.Sprintf("%s: %s encodes the request's own frame object (the encoder writes stream id and body length into it) instead of a private copy", p.Pos(c.Pos()), fn.Name()))
+				return
+			}
+			if !privateCopy(cm.Args[0], 2) {
+				bad = append(bad, fmt.Sprintf("%s: the frame encoded in %s is not a copy with a header of its own (%s)", p.Pos(c.Pos()), fn.Name(), valDesc(cm.Args[0])))
+				return
+			}
+			// the copy carries the sender's own stream id, written before the encode
+			okStore := false
+			eachInstr(fn, func(in ssa.Instruction) {
+				st, ok := in.(*ssa.Store)
+				if !ok {
+					return
+				}
+				fa, ok := st.Addr.(*ssa.FieldAddr)
+				if !ok || fieldOfAddr(fa) != streamIdF {
+					return
+				}
+				_, hdrBase := loadedField(fa.X)
+				same := false
+				for _, o := range origins(hdrBase) {
+					for _, o2 := range origins(cm.Args[0]) {
+						if o == o2 {
+							same = true
+						}
+					}
+				}
+				if !same || !(st.Block() == c.Block() || st.Block().Dominates(c.Block())) {
+					return
+				}
+				if f, base := loadedField(st.Val); f != nil && ((senderStream != nil && f == senderStream) || (senderStream == nil && len(fn.Params) > 0 && base == ssa.Value(fn.Params[0]))) {
 					okStore = true
 				}
-			}
+			})
 			if !okStore {
-				bad = append(bad, fmt.Sprintf("%s: a Request's frame is encoded in %s without this send's stream id having been written just before", p.Pos(e.call.Pos()), fn.Name()))
+				bad = append(bad, fmt.Sprintf("%s: the copy encoded in %s does not carry the sender object's own allocated stream id", p.Pos(c.Pos()), fn.Name()))
 			}
-		}
+		})
+		_ = isSenderFn
 	}
 	if nEnc < 2 {
 		bad = append(bad, fmt.Sprintf("only %d encode sites of Request frames found (2 confirmed by hand)", nEnc))
 	}
 	r.count("request_frame_encode_sites", nEnc)
-	r.check(len(bad) == 0, rule, "proxycore:request-frame-stream", "", fmt.Sprintf("%d encode sites, %d stream stores", nEnc, nStores), strings.Join(dedupe(bad), " || "))
+	r.check(len(bad) == 0, rule, "proxycore:request-frame-stream", "", fmt.Sprintf("%d encode sites, %d stores into request frames", nEnc, nStores), strings.Join(dedupe(bad), " || "))
 }
 
 func c02ReplyStream(p *Prog, r *Report) {
@@ -537,6 +625,11 @@ func privateFrames(p *Prog, r *Report, rule string) {
 	entryF := p.Field("proxycore", "PreparedEntry", "PreparedFrame")
 	isFreshCopy := func(v ssa.Value) (bool, string) {
 		for _, o := range origins(v) {
+			if ex, ok := o.(*ssa.Extract); ok && ex.Index == 0 {
+				if cc, ok := ex.Tuple.(*ssa.Call); ok {
+					o = cc
+				}
+			}
 			c, ok := o.(*ssa.Call)
 			if !ok || c.Call.StaticCallee() == nil || !p.InRepo(c.Call.StaticCallee()) {
 				return false, "value is not produced by a copying function (" + fieldPath(o) + ")"
@@ -549,6 +642,15 @@ func privateFrames(p *Prog, r *Report, rule string) {
 					return
 				}
 				for _, ro := range origins(ret.Results[0]) {
+					if k, ok := ro.(*ssa.Const); ok && k.Value == nil {
+						continue // the error path returns no frame
+					}
+					// the frame codec's conversion produces a new raw frame
+					if ex, ok := ro.(*ssa.Extract); ok && ex.Index == 0 {
+						if cc, ok := ex.Tuple.(*ssa.Call); ok && cc.Call.IsInvoke() && cc.Call.Method.Name() == "ConvertToRawFrame" {
+							continue
+						}
+					}
 					a, ok := ro.(*ssa.Alloc)
 					if !ok {
 						fresh = false
